@@ -107,7 +107,7 @@ func C10(tier string) {
 	crashGuard("C10", tier, "exploration")
 	r := ev.Begin("C10", tier, "exploration")
 	shapes := c10Shapes(tier)
-	r.Rule(fmt.Sprintf("complete product: %d source types x %d destination types x %d bounds shapes (origins negative/zero/positive for source and destination independently, empty, 1xN, Nx1, destination larger than source, source and destination as sub-images of larger parents) x parallelism {1,2,3,4,5,7,11,13,16,64,rows+5} x %d transforms, plus in-place runs where types match; every byte of the destination parent's backing array is compared; distinct = configurations with a non-empty source", len(c10SrcKinds), len(c10DstKinds), len(shapes), len(imgTransforms)))
+	r.Rule(fmt.Sprintf("complete product: %d source types x %d destination types x %d bounds shapes (origins negative/zero/positive for source and destination independently, empty, 1xN, Nx1, destination larger than source, source and destination as sub-images of larger parents) x parallelism {1,2,3,4,5,7,11,13,16,64,rows+5} x %d transforms, plus in-place runs where types match; plus a 130x110 image (14,300 pixels) for every type pair at three origin combinations x parallelism {1,2,4,13}; every byte of the destination parent's backing array is compared; distinct = configurations with a non-empty source", len(c10SrcKinds), len(c10DstKinds), len(shapes), len(imgTransforms)))
 	r.Assume("expected image = destination's own Set(dst.Min + p - src.Min, f(src.At(p))) over a byte-identical copy, i.e. the destination colour model's conversion as implemented by the standard library")
 
 	type job struct {
@@ -162,6 +162,37 @@ func C10(tier string) {
 		r.Eval(evals)
 		r.DistinctN(distinct)
 	})
+	// images above any plausible "small image" threshold, non-zero origins
+	{
+		type bj struct{ ti, si, di, oi int }
+		origins := [][2]image.Point{{image.Pt(0, 0), image.Pt(0, 0)}, {image.Pt(7, 40), image.Pt(3, 9)}, {image.Pt(-7, -40), image.Pt(3, 9)}}
+		var bjobs []bj
+		for si := range c10SrcKinds {
+			for di := range c10DstKinds {
+				for oi := range origins {
+					bjobs = append(bjobs, bj{(si + di + oi) % len(imgTransforms), si, di, oi})
+				}
+			}
+		}
+		r.Par(ev.Workers(), func(shard, n int) {
+			var evals int64
+			for ji := shard; ji < len(bjobs); ji += n {
+				j := bjobs[ji]
+				sk := c10SrcKinds[j.si]
+				o := origins[j.oi]
+				if strings.HasPrefix(sk, "YCbCr") && sk != "YCbCr444" && (o[0].X < 0 || o[0].Y < 0) {
+					continue
+				}
+				sh := imgShape{src: image.Rect(o[0].X, o[0].Y, o[0].X+130, o[0].Y+110), dstMin: o[1], dstExtra: image.Pt(j.oi, 0)}
+				for _, par := range []int{1, 2, 4, 13} {
+					c10One(r, &imgTransforms[j.ti], sk, c10DstKinds[j.di], sh, par, false)
+					evals++
+				}
+			}
+			r.Eval(evals)
+			r.DistinctN(evals)
+		})
+	}
 	r.Set("skipped_subsampled_ycbcr_with_negative_origin", skipped.Load())
 	r.Sample(c10Case{imgTransforms[0].name, "YCbCr420", "RGBA", shapes[7].String(), 3, false})
 	r.Sample(c10Case{imgTransforms[8].name, "RGBA64", "RGBA64", shapes[5].String(), 7, true})
